@@ -45,7 +45,7 @@ class ReqWorld(World):
     name = "W-req"
 
     def __init__(self, dispatcher: bool = False, controller: bool = True, pairs: bool = True, fleets=(),
-                 requests=("r0", "r1", "r2"), cancel: int = 180, low: bool = True, name: str = "", dispatch_states=None, prestart=(), human_shift: int = 0, drain: bool = False):
+                 requests=("r0", "r1", "r2"), cancel: int = 180, low: bool = True, name: str = "", dispatch_states=None, prestart=(), human_shift: int = 0, drain: bool = False, midnight: bool = False):
         super().__init__()
         self.pairs = pairs
         if name:
@@ -57,7 +57,9 @@ class ReqWorld(World):
         dconf = {"matching_range_km_threshold": 0.0}
         if dispatch_states:
             dconf["valid_dispatch_states"] = list(dispatch_states)  # e.g. also "dispatchtrip": vehicles en route may be re-matched
-        cfg = make_config(step=60, cancel=cancel, idle_timeout=100000, dispatcher=dconf)
+        # midnight: the run starts two minutes before the end of a day (requests issued before midnight are served after it)
+        t_start = 2 * 86400 - 120 if midnight else None
+        cfg = make_config(step=60, cancel=cancel, idle_timeout=100000, dispatcher=dconf, **({"start": t_start, "end": 3 * 86400} if midnight else {}))
         schedules = None
         if human_shift:
             from .worlds import T0
@@ -91,7 +93,7 @@ class ReqWorld(World):
                 vehicles.append(mk_vehicle(env, rn, "v2", S["A"], "tiny_thirsty", energy=0.02, fleets=vf))
             else:
                 vehicles.append(mk_vehicle(env, rn, "v2", S["A"], "small", energy=0.10, fleets=vf))
-        self.starts = {"init": build_sim(env, rn, vehicles=vehicles, stations=stations, bases=bases)}
+        self.starts = {"init": build_sim(env, rn, vehicles=vehicles, stations=stations, bases=bases, **({"start": t_start} if midnight else {}))}
         specs = {
             "r0": {"origin": S["M1"], "destination": S["N2"]},
             "r1": {"origin": S["A"], "destination": S["M2"]},
